@@ -58,7 +58,7 @@ COPY_OPS = [
     ("input_object", "?", "ctx.inputs[0][0][0]"), ("bifurcate", "?Ḃ", "stack[0]"), ("dup_under_loop", "?:₀∷›(", "stack[0]"),
 ]
 # transformations applied to the top copy (sympy-free on python ints); u› is the python int 0
-TRANSFORMS = ["u›₀Ȧ", "s", "Ṙ", "U", "›", "₀p", "₀J", "Ḣ", "Ṫ", "f", "¦", "¯", "N", "d", "u›⁽›¨M", "₀+", "t_", "h_", "y_", "÷", "ḣ_", "ṫ_", "u›₀Ȧ›", "su›₀Ȧ", "Ṙu›u Ȧ", "‹u›₀Ȧ", "L", "⁽+₀Ḟ3Ẏ_", "u›₀Ȧu›₁Ȧ"]
+TRANSFORMS = ["u›₀Ȧ", "s", "Ṙ", "U", "›", "₀p", "₀J", "Ḣ", "Ṫ", "f", "¦", "¯", "N", "d", "u›⁽›¨M", "λ+;Ḟ6Ẏ", "G_", "∑_", "Ṙs", "sṘ", "₀+", "t_", "h_", "y_", "÷", "ḣ_", "ṫ_", "u›₀Ȧ›", "su›₀Ȧ", "Ṙu›u Ȧ", "‹u›₀Ȧ", "L", "⁽+₀Ḟ3Ẏ_", "u›₀Ȧu›₁Ȧ"]
 
 
 def table():
@@ -115,7 +115,7 @@ def build(tier, seed, known):
         n_el += 1
     # family B: copies
     for cname, prefix, reader in COPY_OPS:
-        for ti, tr in enumerate(TRANSFORMS if tier == "thorough" else TRANSFORMS[:15]):
+        for ti, tr in enumerate(TRANSFORMS if tier == "thorough" else TRANSFORMS[:20]):
             oid = "b_%s_t%d" % (cname, ti)
             prog = prefix + tr
             src += "STMTS_%s = stmts_of(%r)\n" % (oid, prog)
@@ -123,6 +123,27 @@ def build(tier, seed, known):
                     "other = %s" % reader, "if force(other) != snap: return explain('the untouched copy changed')", "if a != snap: return explain('the input value changed')", "return path_ok()"]
             src += fn_src(oid, "a: List[int]", ["len(a) <= 3"] + ["not (%s)" % e for e in known_exclusions(known, "copy:" + cname)], body)
             plan.obs.append(Ob(oid, "copy:" + cname, "m", oid, 120, "confirmed", "program %s on a list input: the other reference (%s) still denotes the input" % (prog, reader), "input list len<=3, unbounded ints"))
+    # family C: a lazy value that is partially evaluated, then copied, then evaluated further; and nested (matrix) values
+    LAZY_PROGS = [("partial_then_dup_then_len", "?:$→x ←x h_ ←x: L_", "stack[-1]", "a"), ("partial_then_dup_then_tail", "?:$→x ←x h_ ←x: t_", "stack[-1]", "a"),
+                  ("partial_then_triplicate", "?:$→x ←x h_ ←x D L_ _", "stack[-1]", "a"), ("partial_var_then_sum", "?:$→x ←x h_ ←x→y ←x ∑_ ←y", "stack[-1]", "a"),
+                  ("reverse_view_then_len", "?:$Ṙ→x ←x h_ ←x: L_", "stack[-1]", "a[::-1]")]
+    for nm, prog, reader, want in LAZY_PROGS:
+        oid = "c_" + nm
+        src += "STMTS_%s = stmts_of(%r)\n" % (oid, prog)
+        body = ["snap = list(a)", "try:", "    ctx, stack, ns = run_copy_program(STMTS_%s, a)" % oid, "except Exception as e:", "    return note('program raised', type(e).__name__)",
+                "if force(%s) != %s: return explain('the copy of a partially evaluated lazy list changed')" % (reader, want.replace("a", "snap")), "if a != snap: return explain('the input value changed')", "return path_ok()"]
+        src += fn_src(oid, "a: List[int]", ["len(a) <= 4"], body)
+        plan.obs.append(Ob(oid, "lazy_copy", "m", oid, 120, "confirmed", "program %s: a lazy list evaluated partially, copied, evaluated further: the copy still denotes the input" % prog, "input list len<=4, unbounded ints"))
+    NESTED = ["ÞḊ_", "f", "∑_", "vṘ", "ÞT", "vs", "Þf" if False else "v∑", "vL", "ÞD" if False else "h_", "vḢ", "vN", "Ṙ", "∩" if False else "vU"]
+    for ti, tr in enumerate(NESTED):
+        oid = "d_nested_t%d" % ti
+        src += "STMTS_%s = stmts_of(%r)\n" % (oid, "?:" + tr)
+        conc = tr.startswith("Þ")  # matrix elements run sympy objects' own methods: executed outside the tracer on picked concrete rows
+        body = (["a = pick_list(a, -1, 2, 2); b = pick_list(b, -1, 2, 2)"] if conc else []) + ["m = [list(a), list(b)]", "snap = [list(a), list(b)]", "try:",
+                "    ctx, stack, ns = %s" % ("outside_tracer(run_copy_program, STMTS_%s, m)" % oid if conc else "run_copy_program(STMTS_%s, m)" % oid), "    force_some(stack)", "except Exception as e:", "    return note('program raised', type(e).__name__)",
+                "if force(stack[0]) != snap: return explain('the untouched copy of the nested value changed')", "if m != snap: return explain('the nested input value changed in place')", "return path_ok()"]
+        src += fn_src(oid, "a: List[int], b: List[int]", ["len(a) <= 2", "len(b) <= 2", "all(-1 <= x <= 2 for x in a)", "all(-1 <= x <= 2 for x in b)"], body)
+        plan.obs.append(Ob(oid, "nested_copy", "m", oid, 200, "confirmed", "program ?:%s on a nested (ragged matrix) input: the other copy and the input rows are unchanged" % tr, "two rows of length <=2, items in -1..2 (sympy realises them)"))
     src += fn_src("twin_copy", "a: List[int]", ["1 <= len(a) <= 3"], ["ctx, stack, ns = run_copy_program(STMTS_b_dup_t4, a)", "return force(stack[-1]) == list(a)"])
     plan.obs.append(Ob("twin_copy", "copy:dup", "m", "twin_copy", 60, "refuted", "reachability twin (the transformed copy does differ)"))
     plan.modules["m"] = src
